@@ -173,7 +173,10 @@ Lemma dimse_encode_ok (cmd data : bytes) (pc m : N) : legal_max m ->
     Ok (mk_frags pc (map (tag 1 3) (chunks (eff_max m - 6) cmd)) ++
         mk_frags pc (map (tag 0 2) (chunks (eff_max m - 6) data))).
 Proof.
-  intros Hm. unfold dimse_encode. rewrite fragment_ok by exact Hm. cbn [bind].
+  intros Hm. unfold dimse_encode.
+  replace (unusable_max m) with false by (unfold unusable_max; destruct Hm as [->|H7]; [reflexivity|]; symmetry;
+    apply andb_false_intro2; apply N.ltb_ge; exact H7).
+  rewrite fragment_ok by exact Hm. cbn [bind].
   destruct data as [|d ds].
   - cbn [bind]. unfold chunks at 2. reflexivity.
   - rewrite fragment_ok by exact Hm. reflexivity.
